@@ -14,7 +14,7 @@ from concurrent.futures import ThreadPoolExecutor
 
 from .. import coq, runs
 
-PARALLEL_RUNS = 3
+PARALLEL_RUNS = 5
 
 
 def one_run(spec):
